@@ -377,7 +377,7 @@ func c09Targeted(r *proto.Rng) (c09Case, string) {
 	s1, s2 := "\n"+sels[pr[0]]+"\n", "\n"+sels[pr[1]]+"\n"
 	shape := pr[0] + "/" + pr[1]
 	attack := proto.Pick(r, []string{"shared-typename-one-op", "shared-typename-two-ops", "shared-typename-two-types", "alias-concatenation",
-		"typename-like-generated", "fragment-like-generated", "fragment-impl-like-fragment", "nested-abstract-inline", "fragment-or-typename-like-enum", "shortened-name-coincidence", "name-registered-while-converting"})
+		"typename-like-generated", "fragment-like-generated", "fragment-impl-like-fragment", "nested-abstract-inline", "fragment-or-typename-like-enum", "shortened-name-coincidence", "name-registered-while-converting", "shared-typename-spread-vs-inline"})
 	ops := ""
 	switch attack {
 	case "shared-typename-one-op":
@@ -445,6 +445,24 @@ func c09Targeted(r *proto.Rng) (c09Case, string) {
 			shape = "typename-equals-a-later-response-type"
 			ops = "query A {\n  # @genqlient(typename: \"BResponse\")\n  user {\n id\n }\n}\nquery B {\n  user {\n id\n }\n}\n"
 		}
+	case "shared-typename-spread-vs-inline":
+		// the same typename on two fields of one GraphQL type whose selections request the same fields — once through a
+		// named fragment (the Go struct EMBEDS the fragment's struct), once inline (the Go struct has the fields), or
+		// through two differently named fragments: different declarations, so a clash that must be reported
+		first := r.Bool()
+		twoFrags := r.Bool()
+		shape = fmt.Sprint("spread-first=", first, "/two-fragments=", twoFrags)
+		x, y := "...UF", "id\nname"
+		if twoFrags {
+			y = "...UF2"
+		}
+		if !first {
+			x, y = y, x
+		}
+		ops = fmt.Sprintf("query Q {\n  # @genqlient(typename: \"T\")\n  user {\n%s\n }\n  # @genqlient(typename: \"T\")\n  friend {\n%s\n }\n}\nfragment UF on User {\n id\n name\n}\n", x, y)
+		if twoFrags {
+			ops += "fragment UF2 on User {\n id\n name\n}\n"
+		}
 	case "shortened-name-coincidence":
 		// `query Get { viewer {…} }` (viewer: CurrentUser) and `query GetViewer { currentUser {…} }` (currentUser: User):
 		// Get+Viewer+CurrentUser and GetViewer+CurrentUser(+User, shortened away) are the same Go name for two GraphQL types
@@ -488,7 +506,7 @@ func c09One(c *Ctx, cs c09Case, key string) {
 		c.Res.Count("outcome:" + cs.Attack + ":rejected: " + errSignature(stripPos(out.Err.Error())))
 	default:
 		c.Res.Count("outcome:" + cs.Attack + ":generated")
-		if cs.Attack == "name-registered-while-converting" {
+		if cs.Attack == "name-registered-while-converting" || cs.Attack == "shared-typename-spread-vs-inline" {
 			c.Res.Add(proto.Finding{Kind: "violation", Class: "wrong-type-reused", What: "two places that need different Go declarations under one name (" + key + "): generation succeeded, so one of them uses the other's type:\n" + cs.Ops["ops.graphql"], Case: cs})
 		}
 		if cs.Attack == "fragment-or-typename-like-enum" {
